@@ -53,7 +53,13 @@ func NewWarmUpTrafficShapingCalculator(owner *TrafficShapingController, rule *Ru
 
 	maxToken := warningToken + uint64(2*float64(rule.WarmUpPeriodSec)*rule.Threshold/float64(1.0+coldFactor))
 
-	slope := float64(coldFactor-1.0) / rule.Threshold / float64(maxToken-warningToken)
+	// When the token range collapses (maxToken == warningToken, e.g. threshold 1, period 1s, cold
+	// factor 3) the slope would be +Inf and 0*Inf = NaN allowed tokens never block anything:
+	// such a rule has no warm-up phase, so it simply gets the plain threshold (slope 0).
+	slope := float64(0)
+	if maxToken > warningToken {
+		slope = float64(coldFactor-1.0) / rule.Threshold / float64(maxToken-warningToken)
+	}
 
 	warmUpTrafficShapingCalculator := &WarmUpTrafficShapingCalculator{
 		owner:             owner,
